@@ -52,6 +52,7 @@ func init() {
 			ruleNUM1(c)
 			ruleNUM2(c)
 			ruleNUM2alias(c)
+			ruleNUM8(c, "NUM-8")
 			ruleNUM3(c)
 			ruleNUM4(c)
 			ruleNUM5(c)
@@ -126,6 +127,7 @@ func init() {
 			rulePREC1(c)
 			rulePREC2(c)
 			rulePREC3(c)
+			ruleNUM8(c, "NUM-8") // the level and the production numbers reach resolveConflicts unnarrowed
 			ruleCFL3(c)
 		},
 	})
@@ -142,6 +144,7 @@ func init() {
 			ruleLALR5(c)
 			ruleLALR6(c)
 			ruleLALR7(c)
+			ruleNUM8(c, "NUM-8")
 			ruleFMT5(c)
 			ruleFMT6(c)
 			ruleACT1(c)
@@ -167,6 +170,7 @@ func init() {
 			ruleLALR5(c)
 			ruleLALR6(c)
 			ruleLALR7(c)
+			ruleNUM8(c, "NUM-8")
 			ruleCFL1(c)
 			ruleCFL2(c)
 			ruleCFL3(c)
